@@ -212,23 +212,36 @@ def check_obligations(ctx):
     pairs = [(b, t) for b, t in pairs if b in built]
     if not pairs:
         return res
-    # assumptions, checked on this run
-    tmp = os.path.join(COQ, 'Properties', f'_assum_{pid}.v')
-    with open(tmp, 'w') as f:
-        for b in built:
-            f.write(f'From DD Require Import Properties.{b}.\n')
-        for b, t in pairs:
-            f.write(f'Print Assumptions {b}.{t}.\n')
-    rc, out = sh(f'cd {COQ} && timeout 900 coqc -Q . DD Properties/_assum_{pid}.v', timeout=1000)
-    for ext in ('v', 'vo', 'vok', 'vos', 'glob'):
+    # assumptions, checked on this run (in parallel chunks: each Print Assumptions
+    # costs about half a second)
+    nchunks = max(1, min(10, (len(pairs) + 7) // 8))
+    chunks = [pairs[i::nchunks] for i in range(nchunks)]
+    pairs = [x for c in chunks for x in c]
+    procs = []
+    for i, chunk in enumerate(chunks):
+        name = f'_assum_{pid}_{i}'
+        with open(os.path.join(COQ, 'Properties', name + '.v'), 'w') as f:
+            for b in built:
+                f.write(f'From DD Require Import Properties.{b}.\n')
+            for b, t in chunk:
+                f.write(f'Print Assumptions {b}.{t}.\n')
+        procs.append((name, subprocess.Popen(
+            f'cd {COQ} && timeout 900 coqc -Q . DD Properties/{name}.v', shell=True, text=True,
+            stdout=subprocess.PIPE, stderr=subprocess.STDOUT)))
+    rc, out = 0, ''
+    for name, q in procs:
+        o, _ = q.communicate(timeout=1000)
+        out += o
+        rc = rc or q.returncode
+        for ext in ('v', 'vo', 'vok', 'vos', 'glob'):
+            try:
+                os.remove(os.path.join(COQ, 'Properties', f'{name}.{ext}'))
+            except OSError:
+                pass
         try:
-            os.remove(os.path.join(COQ, 'Properties', f'_assum_{pid}.{ext}'))
+            os.remove(os.path.join(COQ, 'Properties', f'.{name}.aux'))
         except OSError:
             pass
-    try:
-        os.remove(os.path.join(COQ, 'Properties', f'._assum_{pid}.aux'))
-    except OSError:
-        pass
     if rc != 0:
         ctx.obligation_broken('Print Assumptions failed', out)
         return res
@@ -250,9 +263,11 @@ def check_obligations(ctx):
         ctx.obligation_broken('assumption report incomplete', out)
     # forbidden declarations anywhere in the development
     hits = []
+    # the development = the files of _CoqProject (scratch files that are not built do not count)
+    listed = {l.strip() for l in open(os.path.join(COQ, '_CoqProject')) if l.strip().endswith('.v')}
     for root, _, fls in os.walk(COQ):
         for fn in fls:
-            if fn.endswith('.v'):
+            if fn.endswith('.v') and os.path.relpath(os.path.join(root, fn), COQ) in listed:
                 txt = open(os.path.join(root, fn)).read()
                 code = re.sub(r'\(\*.*?\*\)', lambda m: '\n' * m.group(0).count('\n'), txt, flags=re.S)
                 for k, line in enumerate(code.split('\n'), 1):
